@@ -2,6 +2,8 @@ package main
 
 import (
 	"fmt"
+	"go/token"
+	"go/types"
 	"strings"
 
 	"golang.org/x/tools/go/ssa"
@@ -86,4 +88,211 @@ func (c *Ctx) errgroupRule(keys ...string) {
 			c.ok(key+":errgroup", fn.Pos(), "%d worker start site(s), no bare go; %d path(s): success only through g.Wait()==nil", len(gos), h.Paths)
 		}
 	}
+}
+
+// sideGoroutineErrors: a function that starts a bare goroutine whose closure stores an error into
+// a variable of the starting function (var tarErr error; go func(){ tarErr = Tar(...) }()) must
+// consult that variable before it can report success: every return after the go statement lies
+// behind the nil edge of a test of the variable, or on the non-nil edge of a test of some error
+// value (an error return).
+func (c *Ctx) sideGoroutineErrors(want func(key string) bool) {
+	n := 0
+	for _, fn := range c.Funcs {
+		if fn.Parent() != nil || !want(fnKey(fn)) {
+			continue
+		}
+		var gos []*ssa.Go
+		instrs(fn, func(_ *ssa.BasicBlock, _ int, ins ssa.Instruction) {
+			if g, ok := ins.(*ssa.Go); ok {
+				gos = append(gos, g)
+			}
+		})
+		for _, g := range gos {
+			mc, ok := g.Call.Value.(*ssa.MakeClosure)
+			if !ok {
+				continue
+			}
+			cl := mc.Fn.(*ssa.Function)
+			for k, b := range mc.Bindings {
+				A, isAlloc := b.(*ssa.Alloc)
+				if !isAlloc || k >= len(cl.FreeVars) {
+					continue
+				}
+				pt, _ := A.Type().Underlying().(*types.Pointer)
+				if pt == nil || !isErrorType(pt.Elem()) {
+					continue
+				}
+				// the closure stores into it
+				stored := false
+				for _, s := range storesTo(A) {
+					if s.Parent() != fn {
+						stored = true
+					}
+				}
+				if !stored {
+					continue
+				}
+				n++
+				name := A.Comment
+				key := fmt.Sprintf("%s:%s", fnKey(fn), name)
+				var isLoadOfA func(v ssa.Value) bool
+				isLoadOfA = func(v ssa.Value) bool {
+					switch x := v.(type) {
+					case *ssa.UnOp:
+						return x.Op == token.MUL && x.X == A
+					case *ssa.Phi:
+						for _, e := range x.Edges {
+							if e != v && isLoadOfA(e) {
+								return true
+							}
+						}
+					}
+					return false
+				}
+				acc := func(iff *ssa.If) (bool, bool) {
+					cm, truth, ok := cmpOf(iff.Cond)
+					if !ok || (cm.op != token.EQL && cm.op != token.NEQ) || !(isNilConst(cm.y) || isNilConst(cm.x)) {
+						return false, false
+					}
+					subj := cm.x
+					if isNilConst(cm.x) {
+						subj = cm.y
+					}
+					if !isErrorType(subj.Type()) {
+						return false, false
+					}
+					nilOnTrue := (cm.op == token.EQL) == truth
+					if isLoadOfA(subj) {
+						return nilOnTrue, !nilOnTrue // nil edge: consulted and fine; non-nil edge: an error path
+					}
+					return !nilOnTrue, nilOnTrue // non-nil edge of another error: an error path
+				}
+				edges := acceptingEdges(fn, acc)
+				// every test of A accepts on both sides (dropped by acceptingEdges): add them back as cut edges
+				for _, b := range fn.Blocks {
+					if iff := lastIf(b); iff != nil {
+						if cm, _, ok := cmpOf(iff.Cond); ok && (isNilConst(cm.x) || isNilConst(cm.y)) {
+							subj := cm.x
+							if isNilConst(cm.x) {
+								subj = cm.y
+							}
+							if isLoadOfA(subj) {
+								edges[edge{b, b.Succs[0]}] = true
+								edges[edge{b, b.Succs[1]}] = true
+							}
+						}
+					}
+				}
+				from := reachableFrom(g.Block(), edges)
+				okAll := true
+				for _, r := range returnsOf(fn) {
+					if r.Block() == g.Block() || from[r.Block()] {
+						// returning the variable itself consults it
+						direct := false
+						for _, res := range r.Results {
+							if isErrorType(res.Type()) && isLoadOfA(unspill(r, res)) {
+								direct = true
+							}
+						}
+						if direct {
+							continue
+						}
+						okAll = false
+						c.bad(key, r.Pos(), "the goroutine started at %s stores its error in %s, but the return at %s can be reached from the go statement without %s having been tested (and not on an error path): a failure or cancellation of the goroutine's work is reported as success", c.pos(g.Pos()), name, c.pos(r.Pos()), name)
+					}
+				}
+				if okAll {
+					c.ok(key, g.Pos(), "every return after the go statement is behind a test of %s or on an error path", name)
+				}
+			}
+		}
+	}
+	c.ok("side-goroutines", 0, "%d goroutine error variable(s) checked", n)
+}
+
+// unspill looks through the named-result cell a return value is spilled to when the function has
+// defers (*res = v; rundefers; t = *res; return t): it returns the value last stored to the cell
+// in the return's block, or v itself.
+func unspill(r *ssa.Return, v ssa.Value) ssa.Value {
+	u, ok := v.(*ssa.UnOp)
+	if !ok || u.Op != token.MUL {
+		return v
+	}
+	cell, ok := u.X.(*ssa.Alloc)
+	if !ok {
+		return v
+	}
+	var last ssa.Value
+	for _, ins := range r.Block().Instrs {
+		if st, ok := ins.(*ssa.Store); ok && st.Addr == cell {
+			last = st.Val
+		}
+	}
+	if last != nil {
+		return last
+	}
+	return v
+}
+
+// rawStorageGuarded: Chunk.storage holds the bytes exactly as some store kept them (with that
+// store's converters applied).  Outside the Chunk type itself they may be handed on as-is only
+// when the receiving side's converters equal the chunk's own: every data use of the field lies
+// behind the true edge of Converters.equal(chunk.converters).
+func (c *Ctx) rawStorageGuarded() {
+	n := 0
+	for _, fn := range c.Funcs {
+		k := fnKey(fn)
+		if strings.HasPrefix(k, "Chunk.") || k == "NewChunk" || k == "NewChunkWithID" || k == "NewChunkFromStorage" {
+			continue
+		}
+		instrs(fn, func(_ *ssa.BasicBlock, _ int, ins ssa.Instruction) {
+			var v ssa.Value
+			switch x := ins.(type) {
+			case *ssa.UnOp:
+				if fa, ok := x.X.(*ssa.FieldAddr); ok && x.Op == token.MUL && fieldOf(fa) == "Chunk.storage" {
+					v = x
+				}
+			case *ssa.Field:
+				if fieldOf(x) == "Chunk.storage" {
+					v = x
+				}
+			}
+			if v == nil || v.Referrers() == nil {
+				return
+			}
+			for _, r := range *v.Referrers() {
+				if call, ok := r.(*ssa.Call); ok && callee(call) == "builtin:len" {
+					continue
+				}
+				if _, ok := r.(*ssa.DebugRef); ok {
+					continue
+				}
+				n++
+				use := r
+				// where the use takes effect: a phi edge counts at the end of the predecessor block
+				target := use
+				if phi, ok := use.(*ssa.Phi); ok {
+					for i, e := range phi.Edges {
+						if e == v {
+							pb := phi.Block().Preds[i]
+							target = pb.Instrs[len(pb.Instrs)-1]
+						}
+					}
+				}
+				okG, _ := guarded(fn, target, func(iff *ssa.If) (bool, bool) {
+					call, ok := iff.Cond.(*ssa.Call)
+					if !ok || !strings.HasSuffix(callee(call), "Converters).equal") {
+						return false, false
+					}
+					if !hasOrigin(call.Call.Args[len(call.Call.Args)-1], func(o string) bool { return o == "field:Chunk.converters" }) {
+						return false, false
+					}
+					return true, false
+				})
+				c.verdict(okG, k+":raw-storage", ins.Pos(), "the stored form of the chunk is passed on only where the converters were found equal to the chunk's own",
+					"Chunk.storage (bytes in the source store's format) is used without Converters.equal(chunk.converters) having been found true: a chunk from a store with another compression/encryption setting is sent or written in the wrong format")
+			}
+		})
+	}
+	c.ok("raw-storage", 0, "%d data use(s) of Chunk.storage outside the Chunk type", n)
 }
